@@ -2,6 +2,9 @@
 //! re-executes one recorded case without any explorer.
 
 mod c04;
+mod c07;
+mod c08;
+mod c16;
 
 use simcore::report::{install_quiet_panic_hook, Tier};
 
@@ -16,9 +19,20 @@ fn main() {
     if args[2] == "--replay" {
         let text = std::fs::read_to_string(&args[3]).expect("read replay file");
         let v: serde_json::Value = serde_json::from_str(&text).expect("parse replay file");
-        let r = &v["replay"];
+        let mut r = &v["replay"];
+        if r["flavour"] == "unchecked" {
+            if cfg!(debug_assertions) {
+                // the case was found in the plain-release flavour: replay it there
+                let st = std::process::Command::new("/verif/target/mc/unchecked/mc").args(&args[1..]).status().expect("run unchecked mc");
+                std::process::exit(st.code().unwrap_or(2));
+            }
+            r = &r["case"];
+        }
         match id {
             "C04" => c04::replay(r),
+            "C07" => c07::replay(r),
+            "C08" => c08::replay(r),
+            "C16" => c16::replay(r),
             _ => {
                 eprintln!("no replay for {id}");
                 std::process::exit(2)
@@ -29,6 +43,9 @@ fn main() {
     let tier = Tier::from_args(Some(args[2].as_str()));
     let code = match id {
         "C04" => c04::run(tier),
+        "C07" => c07::run(tier),
+        "C08" => c08::run(tier),
+        "C16" => c16::run(tier),
         _ => {
             eprintln!("unknown check {id}");
             2
